@@ -516,7 +516,11 @@ class CompoundInterval(Location):
             interval.parent.strip_location_info() if interval.parent else None for interval in intervals
         }
         if len(interval_parents) > 1:
-            errors.append(f"Intervals must all have same parent: {set([interval.parent.id for interval in intervals])}")
+            errors.append(
+                "Intervals must all have same parent: {}".format(
+                    set([interval.parent.id if interval.parent else None for interval in intervals])
+                )
+            )
         if errors:
             raise ValueError("\n".join(errors))
         return cls._from_single_intervals_no_validation(intervals)
